@@ -71,6 +71,15 @@ def gen(rng, tier):
                 if size <= need:
                     size = max(size * 2, need + 8)
                 bpos += ln
+            elif r < 0.80 and ops and ops[-1][0] == "A" and bpos < 3000 and limit >= (1 << 26):
+                # formatted print whose arguments are the buffer's own contents (right after an append: NUL-terminated)
+                k = rng.choice([0, 7, -1, 123456, bpos])
+                ops.append("X%d" % k)
+                ln = 2 * bpos + 4 + len(str(k))      # upper bound (a NUL inside the contents cuts %s short)
+                need = bpos + ln + 1
+                if size <= need:
+                    size = max(size * 2, need + 8)
+                bpos += ln
             elif r < 0.86:
                 ops.append("R")
                 bpos = 0
@@ -121,6 +130,10 @@ def spec_step(s, op):
     if k == "A" or k == "F" or k == "G":
         b = b"" if op[1:] == "-" else bytes.fromhex(op[1:])
         return s + b, len(s) + len(b) + 1
+    if k == "X":
+        body = s.split(b"\0")[0]
+        b = b"<" + body + b"|" + op[1:].encode() + b"|" + body + b">"
+        return s + b, len(s) + len(b) + 1
     if k == "N":
         h, n = op[1:].split(",")
         b = b"" if h == "-" else bytes.fromhex(h)
@@ -170,11 +183,11 @@ def oracle(line, meta, impl):
             if st["data"] != s:
                 return ("failed-op-changed", "failed op %s changed the contents" % op)
             continue
-        if op[0] in "AFGN" and st["ret"] != req - 1 - len(s):
+        if op[0] in "AFGNX" and st["ret"] != req - 1 - len(s):
             return ("ret", "append returned %d at %s" % (st["ret"], op))
         if st["data"] != want or st["bpos"] != len(want):
             return ("contents", "contents differ from the byte-array model after %s: got %s want %s" % (op, st["data"].hex()[:80], want.hex()[:80]))
-        if op[0] in "AFGN" and (st["term"] != "1" or st["bpos"] >= st["size"]):
+        if op[0] in "AFGNX" and (st["term"] != "1" or st["bpos"] >= st["size"]):
             return ("nul", "appended text not followed by NUL inside the allocation after %s" % op)
         if st["bpos"] > st["size"]:
             return ("bounds", "bpos beyond size after %s" % op)
